@@ -333,7 +333,7 @@ class Weaver:
         for kind, arg, text in unit.anchors:
             text = expand(text, ctx)
             nassert += len(re.findall(r"\bassert\b", text))
-            label = "%s %s" % (kind, arg)
+            label = "%s %s" % (kind, arg if not isinstance(arg, tuple) else " #".join(str(a) for a in arg if a is not None))
             if kind == "fn_start":
                 add_after(bo, "\n" + text, label)
             elif kind == "tail":
@@ -365,14 +365,22 @@ class Weaver:
                 else:
                     add_after(hits[0] + len(pat) - 1, "\n" + text, label)
             elif kind in ("before", "after"):
-                pat = [t.text for t in tokenize(expand(arg, ctx))]
+                patstr, nth = arg
+                pat = [t.text for t in tokenize(expand(patstr, ctx))]
                 hits = _find_seq(toks, bo, bc + 1, pat)
-                if len(hits) != 1:
-                    raise LostAnchor("unit %s: anchor %s %r occurs %d times" % (unit.name, kind, arg, len(hits)))
-                if kind == "before":
-                    add_before(hits[0], text, label)
+                if nth is None:
+                    if len(hits) != 1:
+                        raise LostAnchor("unit %s: anchor %s %r occurs %d times" % (unit.name, kind, patstr, len(hits)))
+                    hit = hits[0]
                 else:
-                    add_after(hits[0] + len(pat) - 1, "\n" + text, label)
+                    # `#k`: the k-th occurrence; the total number of occurrences is part of the unit's shape
+                    if len(hits) < nth:
+                        raise LostAnchor("unit %s: anchor %s %r #%d: only %d occurrences" % (unit.name, kind, patstr, nth, len(hits)))
+                    hit = hits[nth - 1]
+                if kind == "before":
+                    add_before(hit, text, label)
+                else:
+                    add_after(hit + len(pat) - 1, "\n" + text, label)
         w.counts["asserts"] = nassert
 
         # unit-local rewrites (R6 closure annotation, R7 adapter stubs, R11 operator desugar ...)
